@@ -22,7 +22,7 @@ Clause -> case family
   $NODEID+x / x+$NODEID                      enum/relative (node id 1..127 x 5 forms x explicit/file), hyp
   node id in force: explicit / file / absent hyp + enum/relative (explicit beats file; absent -> only
                                              'relative' is demanded)
-  compact arrays, with/without name list     enum/compact (N = 1..20, 127, 254; named N = 1..9), hyp
+  compact arrays, with/without name list     enum/compact (N = 1..20, 127, 254; named N = 1..20), hyp
   missing ObjectType, DOMAIN objects         hyp (ObjectType dropped for 1/3 of the VARs), enum/types
   bit rate, node id, device info, comments   hyp (DeviceComissioning, DeviceInfo typed per CiA 306,
                                              BaudRate_x flags, Comments incl. empty lines)
@@ -62,7 +62,8 @@ ASSUMPTIONS = [
     "sections are written parent before children (sub-objects and name lists after their index section)",
     "names/texts use letters, digits, blank and _-%=()/:. (no ';' '#' '$', no leading/trailing blanks)",
     "DummyUsage lists all of Dummy0001..Dummy0007 with 0/1 or is absent",
-    "named compact arrays have 1..9 elements (the radix of the name-list keys is not settled by CiA 306 here)",
+    "the keys of a compact array's name list are decimal sub-index numbers (1=..., 10=..., canopen's reading "
+    "and the one of the EDS editors we know); named compact arrays have 1..20 elements",
     "name of elements of a compact array without name list is not checked (CiA 306 and canopen differ; the "
     "repository's own test pins canopen's form); sub 0 of a compact array is only required to be UNSIGNED8",
     "explicit node id and no [DeviceComissioning] section: od.node_id may be the argument or None",
@@ -463,7 +464,7 @@ def enum_cases(tier):
     for dt in (rc.UNSIGNED32, rc.INTEGER24, rc.REAL32, rc.VISIBLE_STRING):
         for size in list(range(1, 21)) + [127, 254]:
             for named in (False, True):
-                if named and size > 9:
+                if named and size > 20:
                     continue
                 v = _var(dt, sub=1, access="ro", pdo=0,
                          default={"k": "int", "v": size} if dt in rc.INTEGERS else None)
